@@ -19,6 +19,7 @@ Vocabulary (all defined in the model file):
                       their integer average (`none`: no sample or no bucket).
 -/
 import Corro.Lemmas.Members
+import Corro.Gen.MembersGlue
 
 namespace Corro.Members
 
@@ -29,6 +30,60 @@ variable {cfg : Cfg}
 /-- the table the concrete examples and counterexamples below are evaluated with (fixed here, so that a
 retune of the source's `RING_BUCKETS` does not touch them) -/
 def demoCfg : Cfg := ⟨[(0, 6), (6, 15), (15, 50), (50, 100), (100, 200), (200, 300)], 20, by decide⟩
+
+/-! ### (0) SWIM notifications reach the member table as the `up` / `down` steps the theorems below are about
+
+`Corro.Gen.MembersGlue` is regenerated from `handle_notifications` (handlers.rs) and `impl Identity for
+Actor` (actor.rs) at the start of every check; these theorems are about the tables the source gives now. -/
+
+open Corro.Gen.MembersGlue in
+/-- **The glue.**  One iteration of `handle_notifications` — for the dispatch table read off the source —
+is exactly the model step of the corresponding op: a `MemberUp(actor)` is `add_member(&actor)`, a
+`MemberDown(actor)` is `remove_member(&actor)`, and no other notification (`Rename`, `Active`, `Idle`,
+`Defunct`, `Rejoin`, anything newer) changes the member table. -/
+theorem notifications_are_ops (m : Members) (id a t c : Nat) :
+    applyNotif cfg notifTable m .memberUp id a t c = step cfg m (.up id a t c) ∧
+    applyNotif cfg notifTable m .memberDown id a t c = step cfg m (.down id a t c) ∧
+    ∀ k, k ≠ .memberUp → k ≠ .memberDown → applyNotif cfg notifTable m k id a t c = m := by
+  have hu : callOf notifTable .memberUp = .addMember := by decide
+  have hd : callOf notifTable .memberDown = .removeMember := by decide
+  have ho : ∀ k, k ≠ .memberUp → k ≠ .memberDown → callOf notifTable k = .nothing := by
+    intro k; cases k <;> decide
+  refine ⟨by simp [applyNotif, hu, step], by simp [applyNotif, hd, step], ?_⟩
+  intro k h1 h2
+  simp [applyNotif, ho k h1 h2]
+
+/-- A whole stream of notifications through `handle_notifications` is the run of the ops it stands for
+(`opOf`: ups and downs; everything else is dropped), whatever the bucket table and the window. -/
+def opOf : NotifKind × Nat × Nat × Nat × Nat → Option Op
+  | (.memberUp, id, a, t, c) => some (.up id a t c)
+  | (.memberDown, id, a, t, c) => some (.down id a t c)
+  | _ => none
+
+open Corro.Gen.MembersGlue in
+theorem notification_stream_is_run (ns : List (NotifKind × Nat × Nat × Nat × Nat)) (m : Members) :
+    ns.foldl (fun m n => applyNotif cfg notifTable m n.1 n.2.1 n.2.2.1 n.2.2.2.1 n.2.2.2.2) m =
+      runFrom cfg m (ns.filterMap opOf) := by
+  induction ns generalizing m with
+  | nil => rfl
+  | cons n ns ih =>
+    obtain ⟨k, id, a, t, c⟩ := n
+    have h := notifications_are_ops (cfg := cfg) m id a t c
+    simp only [List.foldl_cons, ih]
+    cases k <;> simp [List.filterMap_cons, opOf, runFrom, h.1, h.2.1, h.2.2 _]
+
+open Corro.Gen.MembersGlue in
+/-- **Identity renewal.**  With the comparison `win_addr_conflict` has in the source, an identity renewed
+at a later wall-clock reading keeps the actor id, address and cluster, wins the address conflict against
+the identity it replaces and never loses it back: the renewed identity is the *newest* one in the sense
+of sentence 1 (this is what makes the property's side condition — no up older than an identity already
+reported down — the behaviour of the SWIM layer; the clock moving forward is the assumption). -/
+theorem renewed_identity_wins (a : ActorM) (now : Nat) (h : a.ts < now) :
+    ∃ r, renew a now = some r ∧ r.id = a.id ∧ r.addr = a.addr ∧ r.cluster = a.cluster ∧ a.ts < r.ts ∧
+      winAddrConflict winCmp r a = true ∧ winAddrConflict winCmp a r = false := by
+  refine ⟨{ a with ts := now }, rfl, rfl, rfl, rfl, h, ?_, ?_⟩
+  · simp [winAddrConflict, winCmp, Cmp.holds, h]
+  · simp [winAddrConflict, winCmp, Cmp.holds]; omega
 
 /-! ### (1) listed exactly if the newest identity's last notification was an up, with its address and cluster -/
 
@@ -58,7 +113,7 @@ highest identity timestamp was an up; it is then listed with that timestamp. -/
 theorem listed_iff_newest_up (ops : List Op) (h : Admissible ops) (id : Nat) :
     (∃ st, get (run cfg ops).states id = some st) ↔
       ∃ t, maxTs id ops = some t ∧ lastAbout id t ops = some true := by
-  have hv := states_follow_newest ops h id
+  have hv := states_follow_newest (cfg := cfg) ops h id
   have hm := spec_newest_is_max ops id
   have hl := spec_up_is_last ops id
   simp only [view, specView] at hv
@@ -84,7 +139,7 @@ theorem listed_iff_newest_up (ops : List Op) (h : Admissible ops) (id : Nat) :
 /-- A listed member carries the highest identity timestamp heard of for it. -/
 theorem listed_ts_is_newest (ops : List Op) (h : Admissible ops) (id : Nat) (st : MemberState)
     (hs : get (run cfg ops).states id = some st) : maxTs id ops = some st.ts := by
-  have hv := states_follow_newest ops h id
+  have hv := states_follow_newest (cfg := cfg) ops h id
   have hm := spec_newest_is_max ops id
   simp only [view, specView, hs, Option.map_some] at hv
   cases he : get (specRun ops) id with
@@ -102,7 +157,7 @@ theorem listed_with_newest_identity (ops : List Op) (h : Admissible ops) (hT : T
     (id : Nat) (st : MemberState) (hs : get (run cfg ops).states id = some st)
     (o : Op) (ho : o ∈ ops) (a c : Nat) (hn : notif o = some (id, st.ts, a, c)) :
     st.addr = a ∧ st.cluster = c := by
-  have hv := states_follow_newest ops h id
+  have hv := states_follow_newest (cfg := cfg) ops h id
   simp only [view, specView, hs, Option.map_some] at hv
   cases he : get (specRun ops) id with
   | none => simp [he] at hv
@@ -237,7 +292,7 @@ theorem by_addr_shared_addr_counterexample :
 /-- The sample buffer of an address holds its (at most 20) newest samples, newest first. -/
 theorem rtts_are_newest_samples (ops : List Op) (a : Nat) :
     (get (run cfg ops).rtts a).getD [] = newestSamples cfg a ops := by
-  have := rtts_runFrom a ops init (by simp [init, get])
+  have := rtts_runFrom (cfg := cfg) a ops init (by simp [init, get])
   simpa [run, init, get, newestSamples] using this
 
 /-- **Ring invariant (unconditional).**  After every sequence, a listed member to which the index
@@ -294,10 +349,10 @@ theorem ring0_targets_are_near_same_cluster_peers (ops : List Op) (hA : Admissib
   constructor
   · rintro ⟨id, st, hs, h1, h2, h3⟩
     refine ⟨id, st.ts, ?_, ?_⟩
-    · rw [← states_follow_newest ops hA]; simp [view, hs, h1, h2]
+    · rw [← states_follow_newest (cfg := cfg) ops hA]; simp [view, hs, h1, h2]
     · rw [← ringOf_zero_iff, ← h1, ← ring_from_current_addr ops hN id st hs]; exact h3
   · rintro ⟨id, ts, hv, hr⟩
-    rw [← states_follow_newest ops hA] at hv
+    rw [← states_follow_newest (cfg := cfg) ops hA] at hv
     simp only [view] at hv
     cases hs : get (run cfg ops).states id with
     | none => simp [hs] at hv
